@@ -1,6 +1,6 @@
 SPECIFICATION Spec
-CONSTANT EVariant = "faithful"
-CONSTANT Tier = "thorough"
+CONSTANT EVariant = "bits_per_byte"
+CONSTANT Tier = "quick"
 INVARIANT StreamIsEnc
 INVARIANT SizeIsLen
 INVARIANT Dispatch
